@@ -61,6 +61,8 @@ HARNESSES = {
     'shared': dict(src='harness/shared.cpp', kind='mc'),
     'when_all': dict(src='harness/when_all.cpp', kind='mc'),
     'strand': dict(src='harness/strand.cpp', kind='mc'),
+    'when_any': dict(src='harness/when_any.cpp', kind='mc'),
+    'timed_wait': dict(src='harness/timed_wait.cpp', kind='mc'),
     'pool': dict(src='harness/pool.cpp', kind='mc'),
 }
 
@@ -273,6 +275,35 @@ CHECKS = {
         assumptions=['FIBER instantiation; sequentially consistent executions; preemption bound as stated',
                      'timing oracle uses the explorer event counter as clock'],
         technique='stateless model checking: exhaustive preemption-bounded schedule enumeration of the implementation',
+    ),
+    'C10': dict(
+        title='WhenAny completes once with the right winner for each fail policy',
+        level_text='every schedule within the preemption bound (P<=2 quick, P<=3 thorough; n=3: P<=2) of n=2 (thorough also 3; '
+                   'n=1 and empty input as single cells) producer fibers completing their inputs while the root fiber is still '
+                   'inside WhenAny registering them, x {LastFail, FirstFail, None} x 7 input forms (static/dynamic, unique/shared, '
+                   'same-type/void/variant) x all 9 value/error/exception patterns; oracles: once, admissible winner for the policy '
+                   'and the observed completion windows, timing window, ledger',
+        budget=dict(quick=240, thorough=2400),
+        runs=[mc('when_any', 'mc-asan', quick=dict(P=2), thorough=dict(P=3)),
+              mc('when_any', 'mc-hb', quick=dict(P=2, cells='pat=(VV|EV|XE|VE|EE|VVV|EVV|V,|E,|X,|-)'), thorough=dict(P=3))],
+        assumptions=['FIBER instantiation; sequentially consistent executions; preemption bound as stated',
+                     'timing oracle uses the explorer event counter as clock'],
+        technique='stateless model checking: exhaustive preemption-bounded schedule enumeration of the implementation',
+    ),
+    'C11': dict(
+        title='Wait returns only when ready; a timed-out wait leaves the futures intact',
+        level_text='every schedule within (P<=3 one future / P<=2 two futures quick; all interleavings / P<=3 thorough; the '
+                   'deadline passes by explorer choice at any decision point, T<=1 per wait, two consecutive waits T<=2) of a '
+                   'waiter calling Wait / WaitFor / WaitUntil in the single-future, variadic and iterator forms (shared futures '
+                   'for untimed Wait) against one producer fiber per future, then consuming every future by Get / continuation / '
+                   'Wait+Touch, either at once or after the producers finished (dead-frame monitor)',
+        budget=dict(quick=240, thorough=2400),
+        runs=[mc('timed_wait', 'mc-asan', quick=dict(P=2, T=1), thorough=dict(P=3, T=1)),
+              mc('timed_wait', 'mc-hb', quick=dict(P=2, T=1), thorough=dict(P=3, T=1))],
+        assumptions=['FIBER instantiation with virtual time: a timed wait expires only by an explicit explorer choice or when '
+                     'nothing else can run, which covers every relative position of the deadline',
+                     'sequentially consistent executions; preemption bound as stated'],
+        technique='stateless model checking: exhaustive preemption- and timer-bounded schedule enumeration of the implementation',
     ),
     'C19': dict(
         title='yaclib_std::atomic computes what std::atomic computes',
